@@ -68,6 +68,11 @@ def gen_case(rng, i):
     wild = i % 3 == 2
     inv = ["i", "j"][: rng.randint(1, 2)]
     outv = ["o", "p"][: rng.randint(1, 2)]
+    if i % 4 == 3:
+        # names that look like the exponent of a number when they follow a coefficient without a blank (2e1, 3E2)
+        inv = [rng.choice(["e1", "E2", "e12"])] + inv[1:]
+        if rng.random() < 0.5:
+            outv = outv[:-1] + [rng.choice(["e3", "E1"])]
     pt = {v: rng.choice([0, 1, -1, 2, 0.5, -2.5, 4]) for v in inv + outv}
     near = None
     if i % 4 == 1:
